@@ -157,13 +157,17 @@ PROPS = {
     "C17": {
         "explanation": "FRAGALL: no success return from the zero edge of a test of msg->used without a look at msg->clen. CURSOR: every advance of an iovec cursor in the message functions is paired with a decrement of its element count and happens only while the count is "
                        "non-zero (interval fact at the advance, or a dominating branch on the count's decrement; the position-walk idiom is accepted by shape). "
-                       "DECWRAP: no loop condition pre-decrements an unsigned count that may be zero. PROGRESS: every loop changes something one of its exit conditions reads.",
+                       "DECWRAP: no loop condition pre-decrements an unsigned count that may be zero. PROGRESS: every loop changes something one of its exit conditions reads. "
+                       "LINMSG: relational abstract interpretation of the message functions with the fragment list as an array of `ndat` (or `clen`) iovec records whose elements are objects with an area of iov_len bytes at iov_base: "
+                       "every element access lies inside the list, every byte access and memchr/memcpy extent inside its fragment, and a message handed in by pointer satisfies `used` bytes at base / `clen` fragments at cont again on return (MSGINV); "
+                       "first loop iterations are analysed on their own (peeling), unsigned counters that may have wrapped are resolved by the test they sit in. Accesses whose bound is lost at a loop join are listed as undecided.",
         "not_decided": "equality with the flat computation (positions, counts, copied bytes) for every way of cutting the data",
         "assumptions": [],
         "technique": "interval analysis at cursor advances + dominator/pairing checks + syntactic loop variants",
         "level_text": "Decides that the fragment cursor never leaves the fragment list and every loop terminates on its own exit test, for all 10 message files; not the value equivalence.",
         "level_note": "companion count inferred from struct message fields (cont/clen), locals loaded from them, or the integer parameter following an iovec parameter",
         "rules": [
+            {"run": rules_lin.run_linmsg, "floor": 30, "use_anchor_files": True},
             {"run": rules_path.run_fragstate, "floor": 1, "use_anchor_files": True},
             {"run": rules_path.run_fragall, "floor": 3, "use_anchor_files": True},
             {"run": rules_path.run_arraybound, "floor": 2, "use_anchor_files": True},
@@ -174,7 +178,7 @@ PROPS = {
         ],
     },
     "C03": {
-        "explanation": "CURSORSYNC: after mpt_message_read() advanced the cursor a local copy of its position is reloaded, not stepped by hand. CURSORPAIR as for C01. RESUMESAVE: the 'need more input / more space' exits of a resumable decoder save the same set of state fields (sibling agreement over the exits of one function: "
+        "explanation": "CODECPAIR (as for C01; here its decoder side): the decoder's code -> (data bytes, zero bytes) table, obtained by abstract evaluation of its two length formulas for every code 1..255, is the table of the format: block codes 1..E, and for COBS/ZPE every code above E is <code - (E+1)> data bytes and a zero pair, also the codes the bundled encoder never emits. CURSORSYNC: after mpt_message_read() advanced the cursor a local copy of its position is reloaded, not stepped by hand. CURSORPAIR as for C01. RESUMESAVE: the 'need more input / more space' exits of a resumable decoder save the same set of state fields (sibling agreement over the exits of one function: "
                        "a set saved by at least three exits must not be saved partially by another). PROGRESS: every loop of the frame decoders, mpt_message_read and the queue receive/peek functions changes something one of its exit conditions reads, so "
                        "each decoder call terminates for every byte string and segmentation. CURSOR: the source iovec cursor is only advanced after a successful "
                        "`if (!count--) return` test, i.e. never past the sourcelen elements the caller passed.",
@@ -184,6 +188,7 @@ PROPS = {
         "level_text": "Termination and 'source cursor stays inside the caller's fragment list' for every decoder loop; nothing about the decoded bytes.",
         "level_note": "the destination cursor (dvec) has no separate count: its bound is the relational invariant stated in the source comment and is not decided",
         "rules": [
+            {"run": rules_codec.run, "floor": 20},
             {"run": rules_path.run_cursorpair, "floor": 2, "use_anchor_files": True},
             {"run": rules_path.run_cursorsync, "floor": 6, "use_anchor_files": True},
             {"run": rules_path.run_progress, "floor": 15, "use_anchor_files": True},
